@@ -882,9 +882,9 @@ func init() {
 				}
 				if a == 1 {
 					// long option names that share a prefix: a token is an option only when it spells a name exactly, whatever the map order
-					pn := ps("determinism", 1, 4)
-					pn["names"] = 2
-					us = append(us, unit(cli, "H_indep", "H_indep[determinism spec 1, long names xa/xab/xo/xe, raw K<=1 L<=4]", pn))
+					pn := ps("determinism", 1, 3)
+					pn["names"], pn["specA"] = 2, 6
+					us = append(us, unit(cli, "H_indep", "H_indep[determinism spec `[OPTIONS] [X]`, long names xa/xab/xo/xe, raw K<=1 L<=3]", pn))
 				}
 			}
 			for _, u := range us {
